@@ -168,4 +168,120 @@ Proof.
     apply sum_lr_good. apply Forall_forall. intros z Hz. apply in_map_iff in Hz as (c & <- & Hc).
     rewrite Forall_forall in Hcols. destruct (Hcols c Hc) as [Hg Hl]. rewrite Forall_forall in Hg. apply Hg. apply nth_In. lia.
 Qed.
+(* ---------- +inf at the two ends of the sorted order of every non-constant objective ---------- *)
+Lemma all_some_nth {A} (l : list (option A)) : forall e k x, all_some l = Some e -> nth_error l k = Some (Some x) -> nth_error e k = Some x.
+Proof.
+  induction l as [|o l IH]; intros e k x Hall Hk; [destruct k; discriminate|].
+  destruct o as [a|]; [|discriminate]. cbn in Hall. destruct (all_some l) as [e'|] eqn:E; [|discriminate]. inversion Hall; subst.
+  destruct k; cbn in *; [now inversion Hk|]. now apply (IH e' k x).
+Qed.
+
+Lemma all_some_length {A} (l : list (option A)) : forall e, all_some l = Some e -> length e = length l.
+Proof.
+  induction l as [|o l IH]; intros e Hall; cbn in Hall; [inversion Hall; reflexivity|].
+  destruct o as [a|]; [|discriminate]. destruct (all_some l) as [e'|] eqn:E; [|discriminate]. inversion Hall; subst. cbn. now rewrite (IH e').
+Qed.
+
+Lemma nth_error_map3 {A B C D} (f : A -> B -> C -> D) a : forall b c k x y z,
+  nth_error a k = Some x -> nth_error b k = Some y -> nth_error c k = Some z -> nth_error (map3 f a b c) k = Some (f x y z).
+Proof.
+  induction a as [|x0 a IH]; intros [|y0 b] [|z0 c] [|k] x y z Ha Hb Hc; cbn in *; try discriminate.
+  - inversion Ha; inversion Hb; inversion Hc; subst; reflexivity.
+  - eauto.
+Qed.
+
+Lemma nth_error_combine {A B} (a : list A) : forall (b : list B) k x y,
+  nth_error a k = Some x -> nth_error b k = Some y -> nth_error (combine a b) k = Some (x, y).
+Proof.
+  induction a as [|x0 a IH]; intros [|y0 b] [|k] x y Ha Hb; cbn in *; try discriminate.
+  - inversion Ha; inversion Hb; subst; reflexivity.
+  - eauto.
+Qed.
+
+Lemma ce_col_extremes v d : Forall isfin v -> (exists a b, In a v /\ In b v /\ eltb a b = true) ->
+  ce_col (X := E) feq lg v = Some d ->
+  exists i0 i1, i0 < length v /\ i1 < length v /\
+    (forall i, i < length v -> fle (key v i0) (key v i) /\ fle (key v i) (key v i1)) /\
+    nth i0 d ENaN = PInf /\ nth i1 d ENaN = PInf.
+Proof.
+  intros Hv (a & b & Ha & Hb & Hab) Hce.
+  assert (Hne : v <> []) by (intro Hc; subst; destruct Ha).
+  destruct (argsort_extremes v Hv Hne) as (i0 & i1 & Hi0 & Hi1 & Hr0 & Hr1 & Hext).
+  exists i0, i1. split; [assumption|]. split; [assumption|]. split; [assumption|].
+  unfold ce_col in Hce.
+  set (idx := argsort (X := E) v) in *. set (s := map (fun i => nth i v (qnan E)) idx) in *.
+  pose proof (sorted_map_key v _ (argsort_sorted v Hv)) as Hs. pose proof (keys_fin v _ Hv (argsort_range v)) as Hf.
+  fold idx in Hs, Hf. change (map (key v) idx) with s in Hs, Hf.
+  assert (Hlidx : length idx = length v) by apply argsort_length.
+  assert (Hls : length s = length v) by (subst s; rewrite map_length; exact Hlidx).
+  assert (Hs0 : nth_error s 0 = Some (key v i0)) by (subst s; now apply map_nth_error).
+  assert (Hs1 : nth_error s (length v - 1) = Some (key v i1)) by (subst s; now apply map_nth_error).
+  destruct (key_fin v Hv i0 Hr0) as [f Ef]. destruct (key_fin v Hv i1 Hr1) as [l El].
+  assert (Hd : (0 < l + - f)%Q).
+  { destruct (In_nth v a ENaN Ha) as (ia & Hia & Eia). destruct (In_nth v b ENaN Hb) as (ib & Hib & Eib).
+    destruct (Hext ia Hia) as [H1 _]. destruct (Hext ib Hib) as [_ H2].
+    unfold key in *. rewrite Eia in H1. rewrite Eib in H2. rewrite Ef in H1. rewrite El in H2.
+    rewrite Forall_forall in Hv. destruct (Hv a Ha) as [qa ->]. destruct (Hv b Hb) as [qb ->].
+    unfold fle in H1, H2. cbn in H1, H2, Hab. apply negb_false_iff in H1, H2. apply Qle_bool_iff in H1, H2.
+    apply negb_true_iff in Hab. assert (~ (qb <= qa)%Q) by (intro Hc; apply Qle_bool_iff in Hc; congruence). lra. }
+  set (nm := if eqb (base E) (sub (base E) (nth (length v - 1) s (qnan E)) (nth 0 s (qnan E))) (zero (base E)) then qnan E
+             else sub (base E) (nth (length v - 1) s (qnan E)) (nth 0 s (qnan E))) in *.
+  assert (Hnorm : nm = Fin (l + - f)).
+  { unfold nm. change (qnan E) with ENaN. rewrite (nth_error_nth _ _ _ Hs0), (nth_error_nth _ _ _ Hs1), Ef, El. cbn.
+    destruct (Qeq_bool (l + - f) 0) eqn:Eq; [|reflexivity]. apply Qeq_bool_iff in Eq. lra. }
+  set (dl := map2 (fun a b => nan0 (X := E) (sub (base E) a b)) s (ninf E :: s)) in *.
+  set (du := map2 (fun a b => nan0 (X := E) (sub (base E) b a)) s (tl s ++ [pinf E])) in *.
+  assert (Hgl : Forall good dl) by (exact (plower_good s NInf Hf Hs (or_introl eq_refl))).
+  assert (Hgu : Forall good du) by (exact (pupper_good s Hf Hs)).
+  assert (Hn0 : 0 < length v) by (destruct v; [congruence|cbn; lia]).
+  assert (Hldl : length dl = length v) by (unfold dl; rewrite map2_length; cbn [length]; change (T (base E)) with eq in *; lia).
+  assert (Hldu : length du = length v).
+  { unfold du; rewrite map2_length, app_length; cbn [length]. change (T (base E)) with eq in *. clear - Hls Hn0. destruct s; cbn [tl length] in *; lia. }
+  assert (Hdl0 : nth_error dl 0 = Some PInf).
+  { unfold dl. erewrite nth_error_map2_gen; [|exact Hs0|reflexivity]. rewrite Ef. reflexivity. }
+  assert (Hdu1 : nth_error du (length v - 1) = Some PInf).
+  { unfold du. erewrite nth_error_map2_gen; [|exact Hs1|].
+    2:{ rewrite nth_error_app2; [|destruct s; cbn in *; lia].
+        replace (length v - 1 - length (tl s)) with 0 by (destruct s; cbn in *; lia). reflexivity. }
+    rewrite El. reflexivity. }
+  assert (Hdu0 : exists g0, nth_error du 0 = Some g0 /\ good g0).
+  { destruct (nth_error du 0) as [g0|] eqn:E0; [|apply nth_error_None in E0; lia]. exists g0. split; [reflexivity|]. exact (Forall_nth_error good du _ g0 Hgu E0). }
+  assert (Hdl1 : exists g1, nth_error dl (length v - 1) = Some g1 /\ good g1).
+  { destruct (nth_error dl (length v - 1)) as [g1|] eqn:E1; [|apply nth_error_None in E1; lia]. exists g1. split; [reflexivity|]. exact (Forall_nth_error good dl _ g1 Hgl E1). }
+  destruct Hdu0 as (g0 & Hg0 & Hgood0). destruct Hdl1 as (g1 & Hg1 & Hgood1).
+  set (cd := map2 (add (base E)) dl du) in *.
+  assert (Hcd0 : nth_error cd 0 = Some PInf).
+  { unfold cd. erewrite nth_error_map2_gen; [|exact Hdl0|exact Hg0]. f_equal. now apply add_pinf_l. }
+  assert (Hcd1 : nth_error cd (length v - 1) = Some PInf).
+  { unfold cd. erewrite nth_error_map2_gen; [|exact Hg1|exact Hdu1]. f_equal. now apply add_pinf_r. }
+  destruct (all_some _) as [e|] eqn:Eall; [|discriminate]. injection Hce as <-.
+  (* the entropy terms of the two ends are +inf *)
+  assert (He0 : nth_error e 0 = Some PInf).
+  { apply (all_some_nth _ e 0 PInf Eall).
+    erewrite nth_error_map3; [| |apply nth_error_combine; [exact Hdl0|exact Hg0]|exact Hcd0].
+    2:{ apply (nth_error_nth' (seq 0 (length v)) 0). now rewrite seq_length. }
+    rewrite seq_nth by assumption. cbn [Nat.add Nat.eqb orb]. reflexivity. }
+  assert (He1 : nth_error e (length v - 1) = Some PInf).
+  { apply (all_some_nth _ e (length v - 1) PInf Eall).
+    erewrite nth_error_map3; [| |apply nth_error_combine; [exact Hg1|exact Hdu1]|exact Hcd1].
+    2:{ apply (nth_error_nth' (seq 0 (length v)) 0). rewrite seq_length. lia. }
+    rewrite seq_nth by lia. cbn [Nat.add]. rewrite Nat.eqb_refl, orb_true_r. reflexivity. }
+  assert (Hv0 : nth_error (map2 (fun c en => nan0 (X := E) (div (base E) (mul (base E) c en) nm)) cd e) 0 = Some PInf).
+  { erewrite nth_error_map2_gen; [|exact Hcd0|exact He0]. rewrite Hnorm. unfold nan0. cbn. now rewrite (qsign_pos _ Hd). }
+  assert (Hv1 : nth_error (map2 (fun c en => nan0 (X := E) (div (base E) (mul (base E) c en) nm)) cd e) (length v - 1) = Some PInf).
+  { erewrite nth_error_map2_gen; [|exact Hcd1|exact He1]. rewrite Hnorm. unfold nan0. cbn. now rewrite (qsign_pos _ Hd). }
+  assert (Hlcd : length cd = length v).
+  { unfold cd. etransitivity; [apply map2_length|]. etransitivity; [|apply (Nat.min_id (length v))]. f_equal; assumption. }
+  assert (Hlcb : length (combine dl du) = length v).
+  { etransitivity; [apply combine_length|]. etransitivity; [|apply (Nat.min_id (length v))]. f_equal; assumption. }
+  assert (Hle : length e = length v).
+  { etransitivity; [exact (all_some_length _ e Eall)|]. etransitivity; [apply map3_length|]. rewrite seq_length.
+    etransitivity; [|apply (Nat.min_id (length v))]. f_equal. etransitivity; [|apply (Nat.min_id (length v))]. f_equal; assumption. }
+  assert (Hlv : length idx = length (map2 (fun c en => nan0 (X := E) (div (base E) (mul (base E) c en) nm)) cd e)).
+  { symmetry. etransitivity; [apply map2_length|]. rewrite Hlidx. etransitivity; [|apply (Nat.min_id (length v))]. f_equal; assumption. }
+  split.
+  - exact (scatter_nth (length v) idx _ 0 i0 PInf ENaN (argsort_nodup v) Hlv Hi0 Hv0 Hr0).
+  - exact (scatter_nth (length v) idx _ (length v - 1) i1 PInf ENaN (argsort_nodup v) Hlv Hi1 Hv1 Hr1).
+Qed.
+
 End Ce.
